@@ -4,7 +4,11 @@ id=$1; pid=$2; dst=$3; shift 3
 cd /verif
 demo=$(ls /tmp/wt/$id/_seed/*.go.txt | head -1)
 tools/confirm_seed.sh /tmp/wt/$id $demo $dst "$@" 2>&1 | tail -1 | sed "s/^/$id /"
+cp evidence/$pid.json /tmp/evidence.$pid.$$.json 2>/dev/null
 tmp=$(mktemp -d /tmp/selftest.XXXX); rsync -a --exclude .git --exclude _seed /repo/ $tmp/repo/
 (cd $tmp/repo && patch -p1 -s < /tmp/wt/$id/_seed/patch.diff) || echo "$id patch fail"
 VERIF_REPO=$tmp/repo ./check $pid 2>&1 | grep -E "^VIOLATION|^KNOWN|OK tier|FAILED tier|^  " | sed "s/^/$id /"
 rm -rf $tmp
+# the mutant run rewrote the evidence file and the generated Lean: restore the unchanged-tree state
+mv /tmp/evidence.$pid.$$.json evidence/$pid.json 2>/dev/null
+./check $pid > /dev/null 2>&1
